@@ -917,8 +917,10 @@ class Mgm2Computation(VariableComputation):
                 for n, val in self._neighbors_gains.items()
                 if n != self._partner.name
             ]
-            if neigh_gains == [] or self._is_better_gain(
-                self._potential_gain, best_of(neigh_gains)
+            if (
+                neigh_gains == []
+                or self._is_better_gain(self._potential_gain, best_of(neigh_gains))
+                or self._wins_tie_when_committed(best_of(neigh_gains))
             ):
                 if self.logger.isEnabledFor(logging.INFO):
                     self.logger.info(
@@ -978,6 +980,18 @@ class Mgm2Computation(VariableComputation):
             self._clear_agent()
             self._send_value()
             self._enter_state("value")
+
+    def _wins_tie_when_committed(self, best_neighbor_gain):
+        # Same lexical tie-break as for unilateral moves, so that a committed
+        # pair and a neighbor with the same gain never block each other.
+        if self._potential_gain != best_neighbor_gain:
+            return False
+        ties = [
+            n
+            for n, gain in self._neighbors_gains.items()
+            if n != self._partner.name and gain == best_neighbor_gain
+        ]
+        return self.name < min(ties)
 
     def _is_better_gain(self, gain, other_gain):
         if self._mode == "min":
